@@ -123,3 +123,15 @@ def finish_folds(ctx, rep, R, prefix):
             if not ok:
                 rep.finding(R, f'{prefix}/{lg.name}/finish/{case}', m.relfile(lg.modelcls.module), f'{lg.name}.Model.finish', f'{lg.name}: {case}: {detail}')
     return n
+
+
+def limit_guards(ctx, rep, R, prefix):
+    "helpersfold.fold_limit_guards as a rule of the calling property (C11.R4, C10.R5, C02.R7)"
+    from .. import helpersfold
+    res, cons = helpersfold.fold_limit_guards(ctx.m, ctx.lgs)
+    rep.consult(*cons)
+    for ok, case, detail in res:
+        rep.instance(R, ok=ok, nontrivial=case)
+        if not ok:
+            rep.finding(R, f'{prefix}/{case}', cons[0].split(' ')[0] if cons else 'pytableaux/proof/rules.py', case.split(':')[0], f'{case}: {detail}')
+    rep.floor(R, 'limit guard states', len(res), 12)
